@@ -18,6 +18,7 @@ import (
 	"sync/atomic"
 	"testing"
 	"time"
+	"unsafe"
 
 	"github.com/NethermindEth/juno/sync/preconfirmed"
 
@@ -102,6 +103,27 @@ type capture struct {
 	s1, s2 int
 	asked  uint64
 	v      preconfirmed.ChainReader
+	sig    quickSig
+}
+
+// quickSig is what a sampler can note about the newest entry of a view in a few nanoseconds at the
+// very moment it obtains the view; an entry that is still being completed after publication (or
+// altered later) shows a different signature when the capture is examined after the run.
+type quickSig struct {
+	entry, block, su  uintptr
+	classes, txs, tds int
+	count             uint64
+	id                string
+}
+
+func sigOf(v *preconfirmed.ChainReader) quickSig {
+	h := v.Head()
+	if h == nil || h.Block == nil || h.Block.Header == nil {
+		return quickSig{}
+	}
+	return quickSig{entry: uintptr(unsafe.Pointer(h)), block: uintptr(unsafe.Pointer(h.Block)), su: uintptr(unsafe.Pointer(h.StateUpdate)),
+		classes: len(h.NewClasses), txs: len(h.Block.Transactions), tds: len(h.TransactionStateDiffs),
+		count: h.Block.TransactionCount, id: h.BlockIdentifier}
 }
 
 // concIter is one concurrent run: ONE writer replaying a behaviour, `samplers` goroutines that do
@@ -117,6 +139,7 @@ type concIter struct {
 	storage  *preconfirmed.ChainStorage
 	ctr      atomic.Int64
 	headVar  atomic.Int64
+	hintVar  atomic.Int64 // oldest slot the writer is about to publish (0 = nothing): where views are non-empty
 	start    atomic.Bool
 	done     atomic.Bool
 	mu       sync.Mutex
@@ -136,11 +159,18 @@ func (c *concIter) report(key, what string, exp, obs any) {
 func (c *concIter) take(n, r int) capture {
 	var x capture
 	x.s1 = int(c.ctr.Load())
-	x.asked = uint64(c.headVar.Load()) + 1
-	if n%2 == 0 {
-		x.asked = uint64(1 + (n/2+r)%(c.in.Tables.MaxHead+1))
+	switch hint := uint64(c.hintVar.Load()); {
+	case n%4 == 0:
+		x.asked = uint64(c.headVar.Load()) + 1 // what sync.PreConfirmedChain asks for
+	case n%4 == 1 && hint > 0:
+		x.asked = hint
+	case n%4 == 2 && hint > 0:
+		x.asked = hint + uint64(n/4)%2
+	default:
+		x.asked = uint64(1 + (n/4+r)%(c.in.Tables.MaxHead+2))
 	}
 	x.v = c.storage.SnapshotForBlock(x.asked)
+	x.sig = sigOf(&x.v)
 	x.s2 = int(c.ctr.Load())
 	return x
 }
@@ -148,6 +178,11 @@ func (c *concIter) take(n, r int) capture {
 // examine checks what needs no model (coherent API, gap-free, aligned) and turns the capture into
 // the R event TLC will have to explain; withReads adds the state / class / lookup reads.
 func (c *concIter) examine(r int, x *capture, withReads bool) (rEvent, bool) {
+	if now := sigOf(&x.v); now != x.sig {
+		c.report("conc:view-changed-after-capture", fmt.Sprintf("reader %d: the newest entry of the view for %d (writer steps %d..%d) "+
+			"was different at the moment the view was obtained", r, x.asked, x.s1, x.s2), fmt.Sprintf("%+v", x.sig), fmt.Sprintf("%+v", now))
+		return rEvent{}, false
+	}
 	slots, _, perr := c.w.projectReader(&x.v)
 	if perr != nil {
 		c.report("conc:view-incoherent", fmt.Sprintf("reader %d, view for %d taken between writer steps %d and %d: %v", r, x.asked, x.s1, x.s2, perr), nil, slots)
@@ -160,7 +195,13 @@ func (c *concIter) examine(r int, x *capture, withReads bool) (rEvent, bool) {
 		}
 	}
 	ev := rEvent{Ev: "R", R: r, S1: x.s1, S2: x.s2, Asked: x.asked, Slots: slots, St: []map[string]int{}, Cl: []map[string]int{}, Tx: []int{}}
-	if withReads && len(slots) > 0 {
+	if withReads && len(slots) > 0 && x.asked > uint64(c.in.Tables.MaxHead)+1 {
+		// the canonical block below this view does not exist (the static chain ends at MaxHead)
+		if _, _, err := x.v.PreConfirmedStateAt(slots[0].Num, c.node.BC); err == nil {
+			c.report("conc:state-without-base", fmt.Sprintf("view for %d: a state was returned although block %d is not in the canonical chain", x.asked, x.asked-1), "error", "state")
+			return rEvent{}, false
+		}
+	} else if withReads && len(slots) > 0 {
 		st, cl, tx, rerr := c.w.observeReads(c.node, &x.v, slots)
 		if rerr != nil {
 			c.report("conc:read-failed", rerr.Error(), nil, slots)
@@ -272,6 +313,11 @@ func (c *concIter) writer(flat bool) []wEvent {
 			continue
 		case "Snapshot", "ReaderChain":
 			continue
+		}
+		if len(st.Chain) > 0 {
+			c.hintVar.Store(int64(st.Chain[0].Num))
+		} else {
+			c.hintVar.Store(0)
 		}
 		var m *mismatch
 		switch st.A.Name {
